@@ -32,6 +32,7 @@ func TestCheck(t *testing.T) {
 	if *fProp == "" {
 		t.Skip("no property")
 	}
+	c17T = t
 	exe, _ := os.Executable()
 	c := &CheckCtx{Prop: *fProp, Tier: *fTier, Seed: *fSeed, Exe: exe, Dir: *fDir, OutDir: *fOut, Budget: *fBudget, Workers: *fJobs}
 	rc := RunCheck(c)
